@@ -127,7 +127,8 @@ def mk(t, n, tree, asg, tag):
 
 
 def witnesses(tier, seed):
-    rng = random.Random(seed * 1031 + 2)
+    rng = random.Random(1031 + 2)            # the expression trees are a fixed corpus (all of them are decided on the unchanged tree)
+    rng_sz = random.Random(seed * 1031 + 2)  # the seed selects which sizes each tree is instantiated at
     quick = tier == 'quick'
     W = []
     types = ['f32', 'f64', 'i32', 'i64']
@@ -141,7 +142,7 @@ def witnesses(tier, seed):
             trees.append((rand_tree(rng, 3 if i % 3 else 4, t), 'rnd%d' % i))
         for tree, tag in trees:
             # sizes covering every residue modulo every vector width over the corpus; each tree gets a few
-            ns = rng.sample(sizes_all, 3 if quick else 8) + ([1, 16, 17][k % 3:k % 3 + 1])
+            ns = rng_sz.sample(sizes_all, 3 if quick else 8) + ([1, 16, 17][k % 3:k % 3 + 1])
             for n in sorted(set(ns)):
                 k += 1
                 asg = ASSIGN[k % 5] if not (asg_int_div(t, k)) else '='
@@ -152,7 +153,7 @@ def witnesses(tier, seed):
         # boolean-valued expressions
         for i in range(12 if quick else 60):
             tree = bool_tree(rng, t)
-            for n in rng.sample(sizes_all, 2 if quick else 5):
+            for n in rng_sz.sample(sizes_all, 2 if quick else 5):
                 W.append(mk(t, n, tree, '=', 'bool%d' % i))
     return group_sort(W)
 
